@@ -193,6 +193,7 @@ def strat_mask(draw, tier):
     c["mask"] = draw(st.lists(st.booleans(), min_size=nchans, max_size=nchans))
     nbits = c["layout"]["nbits"]
     c["mask_value"] = draw(st.integers(0, (1 << nbits) - 1)) if nbits < 32 else draw(st.sampled_from([0, -5, 17, 2.5, 1e6]))
+    c["mask_type"] = draw(st.sampled_from(["bool_array", "bool_array", "bool_list", "int_array", "uint8_array", "int_list"]))
     return c
 
 
@@ -200,7 +201,11 @@ def check_mask(case, ctx):
     s = Setup(case, ctx)
     mask = np.array(case["mask"], dtype=bool)
     mv = case["mask_value"]
-    o1 = s.call("apply_channel_mask", lambda: s.reader().apply_channel_mask(mask, mv, s.out("m.fil", True), **s.kw))
+    # the mask as the caller holds it: a bool array, a list of bools, or 0/1 integers (array or list)
+    mtype = case.get("mask_type", "bool_array")
+    marg = {"bool_array": mask, "bool_list": [bool(v) for v in mask], "int_array": mask.astype(np.int64), "uint8_array": mask.astype(np.uint8),
+            "int_list": [int(v) for v in mask]}[mtype]
+    o1 = s.call("apply_channel_mask", lambda: s.reader().apply_channel_mask(marg, mv, s.out("m.fil", True), **s.kw))
     arr, _ = s.parse("apply_channel_mask", o1, s.nbits, s.nchans, s.eff)
     want = s.X.copy()
     want[:, mask] = np.asarray(mv).astype(want.dtype)
@@ -244,6 +249,7 @@ def strat_chans(draw, tier):
     nchans = c["layout"]["nchans"]
     c["chans"] = draw(st.one_of(st.none(), st.lists(st.integers(0, nchans - 1), min_size=1, max_size=min(nchans, 6), unique=True)))
     c["batch"] = draw(st.sampled_from([1, 2, 200]))
+    c["chans_as_list"] = draw(st.booleans())
     return c
 
 
@@ -256,7 +262,8 @@ def check_chans(case, ctx):
 
     def run(base, gulp):
         kw = dict(s.kw, gulp=gulp)
-        return s.reader().extract_chans(None if chans is None else np.array(chans), s.out(base, base == "c"), batch_size=case["batch"], **kw)
+        carg = None if chans is None else (list(chans) if case.get("chans_as_list") else np.array(chans))
+        return s.reader().extract_chans(carg, s.out(base, base == "c"), batch_size=case["batch"], **kw)
 
     names = s.call("extract_chans", lambda: run("c", s.gulp))
     require(isinstance(names, list) and len(names) == len(sel), "extract_chans:file-count", f"{s.ctxt}: {len(names)} files for {len(sel)} channels")
